@@ -385,6 +385,11 @@ func (s *sim) genTx() *entry {
 			f.Data = c.Bytes("data", 1+c.Intn("dlen", 6))
 		}
 		f.Gas = intrinsicGas(f.To, f.Data)
+		if c.Chance("transfer-gas-slack", 1, 3) {
+			// a limit above the intrinsic cost: gas is bought for the whole limit and the unused
+			// part handed back (also when the transfer itself is refused for lack of value)
+			f.Gas += uint64(1+c.Intn("slack", 30)) * 1000
+		}
 	case 1: // contract creation
 		kind = kCreate
 		ct := ctype(c.Intn("ctype", int(nCtypes)))
